@@ -365,7 +365,29 @@ func (s *Server) listAndFilterObjects(ctx context.Context, r *http.Request, buck
 			}
 			collectedObjects = append(collectedObjects, object)
 			if int32(len(collectedObjects)) >= maxKeys {
-				hasMore := objectIndex < len(result.Objects)-1 || len(result.CommonPrefixes) > 0 || result.IsTruncated
+				// The next page starts behind this key. Common prefixes of this storage
+				// page that sort before it would never be listed again, so they belong
+				// to this page; the ones behind it are delivered with the next page.
+				laterPrefixes := 0
+				for _, commonPrefix := range result.CommonPrefixes {
+					if commonPrefix > key {
+						laterPrefixes++
+						continue
+					}
+					if _, exists := seenPrefixes[commonPrefix]; exists {
+						continue
+					}
+					prefixAllowed, err := s.authorizeListObject(ctx, baseRequest, commonPrefix, nil)
+					if err != nil {
+						return nil, nil, err
+					}
+					if !prefixAllowed {
+						continue
+					}
+					seenPrefixes[commonPrefix] = struct{}{}
+					collectedPrefixes = append(collectedPrefixes, commonPrefix)
+				}
+				hasMore := objectIndex < len(result.Objects)-1 || laterPrefixes > 0 || result.IsTruncated
 				if hasMore {
 					nextMarker = lastScanned
 					return &storage.ListBucketResult{Objects: collectedObjects, CommonPrefixes: collectedPrefixes, IsTruncated: true}, nextMarker, nil
